@@ -15,14 +15,15 @@ IsNaN(a) == a[2] = 0
 RLt(a, b) == a[1] * b[2] < b[1] * a[2]
 RLe(a, b) == a[1] * b[2] <= b[1] * a[2]
 REq(a, b) == a[1] * b[2] = b[1] * a[2]
-RAdd(a, b) == <<a[1] * b[2] + b[1] * a[2], a[2] * b[2]>>
-RSub(a, b) == <<a[1] * b[2] - b[1] * a[2], a[2] * b[2]>>
-RMul(a, b) == <<a[1] * b[1], a[2] * b[2]>>
-RDiv(a, b) == IF b[1] > 0 THEN <<a[1] * b[2], a[2] * b[1]>> ELSE <<-(a[1] * b[2]), -(a[2] * b[1])>>
 RECURSIVE Gcd(_, _)
 Gcd(a, b) == IF b = 0 THEN a ELSE Gcd(b, a % b)
 Abs(x) == IF x < 0 THEN -x ELSE x
 Norm(a) == IF IsNaN(a) THEN a ELSE LET g == Gcd(Abs(a[1]), a[2]) IN IF g = 0 THEN a ELSE <<a[1] \div g, a[2] \div g>>
+(* every operation normalises its result: TLC integers are 32 bit *)
+RAdd(a, b) == Norm(<<a[1] * b[2] + b[1] * a[2], a[2] * b[2]>>)
+RSub(a, b) == Norm(<<a[1] * b[2] - b[1] * a[2], a[2] * b[2]>>)
+RMul(a, b) == Norm(<<a[1] * b[1], a[2] * b[2]>>)
+RDiv(a, b) == Norm(IF b[1] > 0 THEN <<a[1] * b[2], a[2] * b[1]>> ELSE <<-(a[1] * b[2]), -(a[2] * b[1])>>)
 Idx(sq) == 1..Len(sq)
 Finite(xs) == {i \in Idx(xs) : ~IsNaN(xs[i])}
 RMaxOf(xs) == LET F == Finite(xs) IN xs[CHOOSE i \in F : \A j \in F : RLe(xs[j], xs[i])]
